@@ -21,6 +21,7 @@ vars == <<st, hist, rng, walk>>
 
 RxSeq8 == <<"r1", "r2", "r3", "r4", "EX_m3", "EX_m4", "DM_m1", "SK_m2">>
 MetSeq4 == <<"m1", "m2", "m3", "m4">>
+MetSeq5 == <<"m1", "m2", "m3", "m4", "m5">>        \* (m5: a spare internal identifier -- the target of renames)
 GeneSeq4 == <<"g1", "g2", "g3", "g4">>
 GrpSeq1 == <<"grp1">>
 
@@ -200,7 +201,8 @@ DrawOp(r, S) ==
     [] k = "DetachedSetBounds" -> base @@ [r |-> PickPresent(RxSeq, RxU \ C.rxns, d[3]), lo |-> Pick(LoVals, d[8]), hi |-> Pick(HiVals, d[9])]
     [] k = "SetRule" -> base @@ [r |-> rx, rule |-> Pick(RuleU, d[8]), form |-> d[9] % 2]
     [] k = "GeneKnockOut" -> base @@ [g |-> gn]
-    [] k = "KnockOutModelGenes" -> base @@ [gs |-> IF d[8] % 2 = 0 /\ gn # gn2 THEN <<gn, gn2>> ELSE <<gn>>, form |-> d[9] % 3]
+    [] k = "KnockOutModelGenes" -> base @@ [gs |-> IF d[8] % 2 = 0 /\ gn # gn2 THEN <<gn, gn2>> ELSE <<gn>>, form |-> d[9] % 3,
+                                            bad |-> IF d[10] % 6 = 0 THEN 1 ELSE 0]
     [] k = "RemoveGenes" -> base @@ [gs |-> IF d[8] % 3 = 0 /\ gn # gn2 THEN <<gn, gn2>> ELSE <<gn>>, rr |-> d[9] % 2 = 0, form |-> d[10] % 2]
     [] k = "RenameGene" ->
          LET new1 == Pick(GeneSeq, d[8])
@@ -329,6 +331,8 @@ KoOps ==
   {[a |-> "GeneKnockOut", s |-> 1, g |-> g] : g \in {"g1", "g2", "g3"}}
   \cup {[a |-> "KnockOutModelGenes", s |-> 1, gs |-> <<"g2">>, form |-> 0],
         [a |-> "KnockOutModelGenes", s |-> 1, gs |-> <<"g3", "g1">>, form |-> 1],
+        \* a failing call: two genes of one complex (r2: g1 and g2), then an identifier that is no gene
+        [a |-> "KnockOutModelGenes", s |-> 1, gs |-> <<"g1", "g2">>, form |-> 1, bad |-> 1],
         [a |-> "RemoveGenes", s |-> 1, gs |-> <<"g3">>, rr |-> FALSE, form |-> 0],
         [a |-> "RemoveGenes", s |-> 1, gs |-> <<"g1">>, rr |-> FALSE, form |-> 1],
         [a |-> "RenameGene", s |-> 1, g |-> "g2", new |-> "g4", more |-> <<>>],
@@ -356,7 +360,21 @@ ObjOps ==
    [a |-> "Enter", s |-> 1], [a |-> "Exit", s |-> 1]}
   \cup (IF Depth >= 4 THEN {[a |-> "SetDirection", s |-> 1, dir |-> "min"],
                             [a |-> "SetBounds", s |-> 1, r |-> "r1", lo |-> -5, hi |-> 5]} ELSE {})
+\* rename vocabulary (universe with the spare metabolite identifier m5): stoichiometry edits of r2 (m1 -> m2) before and
+\* after its metabolite m2 is renamed (and renamed back), removed, written into an equation; the reaction itself renamed
+RenOps ==
+  {[a |-> "RxnAddMetabolites", s |-> 1, r |-> "r2", d |-> D1("m2", 1), combine |-> TRUE, form |-> 0],
+   [a |-> "RenameMetabolite", s |-> 1, met |-> "m2", new |-> "m5"],
+   [a |-> "RenameMetabolite", s |-> 1, met |-> "m5", new |-> "m2"],
+   [a |-> "RxnAddMetabolites", s |-> 1, r |-> "r2", d |-> D1("m5", 1), combine |-> TRUE, form |-> 1],
+   [a |-> "RxnAddMetabolites", s |-> 1, r |-> "r2", d |-> D1("m5", -2), combine |-> FALSE, form |-> 0],
+   [a |-> "RemoveMetabolites", s |-> 1, ms |-> <<"m5">>, destructive |-> FALSE, form |-> 0],
+   [a |-> "RemoveMetabolites", s |-> 1, ms |-> <<"m2">>, destructive |-> FALSE, form |-> 1],
+   [a |-> "BuildFromString", s |-> 1, r |-> "r2", d |-> [x \in MetU |-> IF x = "m1" THEN -1 ELSE IF x = "m5" THEN 2 ELSE 0], arrow |-> "both", spell |-> 0],
+   [a |-> "RenameReaction", s |-> 1, r |-> "r2", new |-> "r4"],
+   [a |-> "Query", s |-> 1]}
 FullOps ==
+  IF FullSet = "ren" THEN RenOps ELSE
   IF FullSet \in {"objp", "objc"} THEN ObjOps ELSE
   IF FullSet = "mid" THEN
      BoundOps \cup {
@@ -377,7 +395,7 @@ FullOps ==
   IF FullSet = "ko" THEN KoOps ELSE
   IF FullSet = "det0" THEN Det0Ops ELSE
   IF FullSet = "copy" THEN CopyOps ELSE
-  IF FullSet = "io" THEN IoOps ELSE
+  IF FullSet \in {"io", "iox"} THEN IoOps ELSE
   IF FullSet = "bounds" THEN BoundOps ELSE
   BoundOps
   \cup {
@@ -415,7 +433,12 @@ FullOps ==
 FullPrefix == IF FullSet = "copy" THEN SeedOps(2, "glpk") \o <<[a |-> "Enter", s |-> 1],
                                                               [a |-> "Copy", s |-> 1, t |-> 2, kind |-> "copy"]>> ELSE
               IF FullSet = "io" THEN SeedOps(1, "glpk") \o <<[a |-> "RoundTrip", s |-> 1, fmt |-> "json"]>> ELSE
-              IF FullSet \in {"analyze", "ko", "det0"} THEN SeedOps(1, "glpk") ELSE
+              \* the same vocabulary from a model that was IMPORTED from SBML and whose objects carry notes
+              IF FullSet = "iox" THEN SeedOps(1, "glpk") \o <<[a |-> "Annotate", s |-> 1, x |-> "m1", v |-> 1, via |-> 2],
+                                                             [a |-> "Annotate", s |-> 1, x |-> "r2", v |-> 2, via |-> 2],
+                                                             [a |-> "Annotate", s |-> 1, x |-> "g1", v |-> 1, via |-> 2],
+                                                             [a |-> "RoundTrip", s |-> 1, fmt |-> "sbml"]>> ELSE
+              IF FullSet \in {"analyze", "ko", "det0", "ren"} THEN SeedOps(1, "glpk") ELSE
               IF FullSet = "objp" THEN SeedOps(1, "glpk") \o <<[a |-> "Enter", s |-> 1], [a |-> "Helper", s |-> 1, kind |-> "add_pfba"]>> ELSE
               IF FullSet = "objc" THEN SeedOps(1, "glpk") \o <<[a |-> "Enter", s |-> 1], [a |-> "Helper", s |-> 1, kind |-> "custom_objective"]>>
               ELSE SeedOps(1, "glpk") \o <<[a |-> "Enter", s |-> 1]>>
@@ -435,7 +458,7 @@ Next ==
   IF Mode = "full"
   THEN /\ Len(hist) < Len(FullPrefix) + Depth
        \* (io vocabulary: an edit after the last import is never seen by one -- the last operation is an import)
-       /\ \E op \in (IF FullSet = "io" /\ Len(hist) = Len(FullPrefix) + Depth - 1
+       /\ \E op \in (IF FullSet \in {"io", "iox"} /\ Len(hist) = Len(FullPrefix) + Depth - 1
                       THEN {o \in FullOps : o.a \in {"RoundTrip", "LoadDoc"}} ELSE FullOps) :
              st' = Apply(op, st).st /\ hist' = Append(hist, op)
        /\ UNCHANGED <<rng, walk>>
